@@ -308,12 +308,14 @@ func (w *World) deliver(it *qItem) {
 			return
 		}
 		w.Emit(it.to, inc.N, "deliver.msg", EvMsg{Peer: it.from, Type: it.msgType, Payload: it.payload})
-		var err error
-		panicked := n.Call(func() { err = h(it.from, fmt.Sprintf("%x", it.msgType), it.payload) })
-		es := ""
-		if err != nil {
-			es = err.Error()
-		}
+		// the call may be abandoned (incarnation killed) while the handler is still running
+		var errv atomic.Value
+		panicked := n.Call(func() {
+			if err := h(it.from, fmt.Sprintf("%x", it.msgType), it.payload); err != nil {
+				errv.Store(err.Error())
+			}
+		})
+		es, _ := errv.Load().(string)
 		w.Emit(it.to, inc.N, "deliver.msg.ret", EvRet{Err: es, Panic: panicked})
 	case qPayNotify:
 		cb := inc.payCallback()
